@@ -145,4 +145,23 @@ func TestC44_Round(t *testing.T) {
 
 // open known findings of this part: while listed open in known_findings.json the
 // two operations are never put into different goroutines of one program
-var c44roundKnown = []c44kit.KnownPair{}
+var c44roundKnown = []c44kit.KnownPair{
+	// Round.GetNotarizedBlocks returns r.notarizedBlocks without taking r.mutex
+	{Key: "round-notarized-blocks-read-without-lock", A: "GetNotarizedBlocks+walk", B: "AddNotarizedBlock"},
+	{Key: "round-notarized-blocks-read-without-lock", A: "GetNotarizedBlocks+walk", B: "Restart"},
+	{Key: "round-notarized-blocks-read-without-lock", A: "GetNotarizedBlocks+walk", B: "GetBestRankedNotarizedBlock"},
+	// GetProposedBlocks hands out the live slice, add/replace/sort happen in place; the GetBestRanked* getters
+	// sort the shared slice while holding only the read lock
+	{Key: "round-live-block-slices", A: "GetProposedBlocks+walk", B: "AddNotarizedBlock"},
+	{Key: "round-live-block-slices", A: "GetProposedBlocks+walk", B: "AddProposedBlock"},
+	{Key: "round-live-block-slices", A: "GetProposedBlocks+walk", B: "GetBestRankedProposedBlock"},
+	{Key: "round-live-block-slices", A: "GetBestRankedProposedBlock", B: "GetBestRankedProposedBlock"},
+	{Key: "round-live-block-slices", A: "GetBestRankedProposedBlock", B: "Clone"},
+	{Key: "round-live-block-slices", A: "GetBestRankedNotarizedBlock", B: "GetBestRankedNotarizedBlock"},
+	{Key: "round-live-block-slices", A: "GetBestRankedNotarizedBlock", B: "GetHeaviestNotarizedBlock"},
+	{Key: "round-live-block-slices", A: "GetBestRankedNotarizedBlock", B: "Finalize"},
+	{Key: "round-live-block-slices", A: "GetBestRankedNotarizedBlock", B: "Clone"},
+	// Round.Clone copies RandomSeed / the timeout counter without the atomics / mutex that guard them
+	{Key: "round-clone-unguarded-fields", A: "Clone", B: "SetTimeoutCount"},
+	{Key: "round-clone-unguarded-fields", A: "Clone", B: "SetRandomSeedForNotarizedBlock"},
+}
